@@ -157,6 +157,9 @@ func (in *interp) stmts(t *rapid.T, env map[string]any, list []*SX) any {
 				}
 				in.stmts(t, map[string]any{}, body)
 			})
+		case "defer": // a deferred function of the user's code (monitors only: the model has no such statement)
+			body := s.List[1:]
+			defer func() { in.stmts(t, env, body) }()
 		case "ctx":
 			in.ctxEvent(t)
 		case "ctxlive": // the context of the invocation must be live in the body
